@@ -410,6 +410,47 @@ func ruleLeaseDuration() *Rule {
 				ob.Verdict, ob.Detail = Violated, "renew does not set expiration to time.Now().Add(l.duration)"
 			}
 			out = append(out, ob)
+			// 4. validity is "now before expiration"
+			if valid := p.Func("(*lease).isValid"); valid != nil {
+				ob = Obligation{Rule: id, Construct: "validity test of the lease", Pos: p.Pos(valid.Pos())}
+				okValid := false
+				for _, b := range valid.Blocks {
+					for _, in := range b.Instrs {
+						ret, ok := in.(*ssa.Return)
+						if !ok || len(ret.Results) != 1 {
+							continue
+						}
+						c, ok := ret.Results[0].(*ssa.Call)
+						if !ok || c.Common().StaticCallee() == nil || len(c.Common().Args) != 2 {
+							continue
+						}
+						isNow := func(v ssa.Value) bool {
+							n, ok := v.(*ssa.Call)
+							return ok && n.Common().StaticCallee() != nil && n.Common().StaticCallee().Name() == "Now"
+						}
+						isExp := func(v ssa.Value) bool {
+							u, ok := v.(*ssa.UnOp)
+							if !ok || u.Op != token.MUL {
+								return false
+							}
+							fa, ok := u.X.(*ssa.FieldAddr)
+							return ok && fieldOf(fa.X.Type(), fa.Field) == expFld
+						}
+						switch c.Common().StaticCallee().Name() {
+						case "Before":
+							okValid = isNow(c.Common().Args[0]) && isExp(c.Common().Args[1])
+						case "After":
+							okValid = isExp(c.Common().Args[0]) && isNow(c.Common().Args[1])
+						}
+					}
+				}
+				if okValid {
+					ob.Verdict, ob.Detail = Discharged, "time.Now().Before(l.expiration)"
+				} else {
+					ob.Verdict, ob.Detail = Violated, "isValid is not 'the current time is before the expiration': an expired lease can serve reads or make the leader ignore vote requests"
+				}
+				out = append(out, ob)
+			}
 			// other writers of the two fields
 			for _, fn := range p.SortedFuncs() {
 				if fn == nl || fn == renew {
